@@ -8,6 +8,9 @@ From PFDL Require Import NetModel RefBase.
 From PFDL.Refine Require Import Eval Layout GenSpec.
 From Coq Require Import Lia.
 
+Section WithLV.
+Context `{LV : LoopVars}.
+
 (* ---- positions inside a block / a Parallel ---- *)
 Fixpoint spos (l : list xstmt) (p : pos) (i : nat) : pos :=
   match l with
@@ -305,9 +308,9 @@ Proof.
   intros N.
   induction s as [n a i|t a i body IH|bs IH|e0 p f IHp IHf|e0 b IH|v l b IH|v l c IH] using xstmt_ind';
     intros Hf p0 ctx xcbs Hw; try discriminate Hf.
-  - cbn [wired] in Hw. destruct Hw as (_ & _ & _ & (il & Ha) & _). intros k Hk. cbn [napis] in Hk.
+  - cbn [wired] in Hw. destruct Hw as (_ & _ & _ & Ha & _). intros k Hk. cbn [napis] in Hk.
     assert (k = pa p0) by lia. subst k. eexists. split; [exact Ha|reflexivity].
-  - apply frag_call in Hf. destruct Hf as [_ Hf]. cbn [wired] in Hw. destruct Hw as [(il & Ha) Hw].
+  - apply frag_call in Hf. destruct Hf as [_ Hf]. cbn [wired] in Hw. destruct Hw as [Ha Hw].
     intros k Hk. rewrite napis_call in Hk. destruct (Nat.eq_dec k (pa p0)) as [->|Hne].
     + eexists. split; [exact Ha|reflexivity].
     + apply (apis_ok_block N body IH Hf (body_pos t p0) (pa p0) (CbTF (pa p0) :: xcbs) Hw k). cbn [body_pos pa]. lia.
@@ -579,7 +582,9 @@ Proof. intros. destruct s; reflexivity. Qed.
 
 Definition EvF (i : nat) : event := EvFinish (ITest i).
 
-(* the API records and place_dict bindings of the active part of the tree, and its shape
+(* the API records and place_dict bindings of the active part of the tree, and its shape;
+   [ie] = the loop indices of the task instance (the parameter lists of services and calls
+   inside counting loops carry the substituted indices)
    (the conjunct about [N0] is a placeholder: the relation to the generated net is kept
    globally, in Sim.Inv):
    a service that is awaited carries its test identifier and is bound to its 'finished' place;
@@ -587,87 +592,87 @@ Definition EvF (i : nat) : event := EvFinish (ITest i).
 Section Act.
   Variable N0 : NS.
   Variable ns : NS.
-  Fixpoint act (st : rst) (s : xstmt) (p : pos) (ctx : nat) {struct st} : Prop :=
+  Fixpoint act (st : rst) (s : xstmt) (p : pos) (ctx : nat) (ie : ienv) {struct st} : Prop :=
     match st, s with
     | RAwait id, XService n at_ ins =>
-      (exists il, nth_error (ns_apis ns) (pa p) = Some (with_uuid (ITest id) (svc_api il n at_ ins ctx (pa p)))) /\
+      (exists il, nth_error (ns_apis ns) (pa p) = Some (reid (ITest id) (subst_params ie ins) (svc_api il n at_ ins ctx (pa p)))) /\
       dict_get ident_eqb (ITest id) (ns_place_dict ns) = Some (pp p + 1) /\ id < ns_sid ns
     | RCall cid i st', XCall t at_ ins body =>
-      ((exists il, nth_error (ns_apis ns) (pa p) = Some (with_uuid (ITest cid) (call_api il t at_ ins ctx (pa p)))) /\
+      ((exists il, nth_error (ns_apis ns) (pa p) = Some (reid (ITest cid) (subst_params ie ins) (call_api il t at_ ins ctx (pa p)))) /\
        C0 ns cid (rch_block body (body_pos t p) i st' [])) /\
       is_done st' = false /\ (ns_trans N0 = ns_trans N0) /\
       match nth_error body i with
-      | Some s' => act st' s' (spos body (body_pos t p) i) (pa p)
+      | Some s' => act st' s' (spos body (body_pos t p) i) (pa p) []
       | None => False
       end
     | RPar sts, XParallel bs =>
       all_done sts = false /\
       (fix go (sts : list rst) (bs : list xstmt) (q : pos) : Prop :=
          match sts, bs with
-         | st1 :: sr, b :: br => act st1 b q ctx /\ go sr br (adv b q)
+         | st1 :: sr, b :: br => act st1 b q ctx ie /\ go sr br (adv b q)
          | [], [] => True
          | _, _ => False
          end) sts bs (par_pos p)
     | RCond b i st', XCond _ P F =>
       is_done st' = false /\ (ns_trans N0 = ns_trans N0) /\
       match nth_error (if b then P else F) i with
-      | Some s' => act st' s' (spos (if b then P else F) (if b then cond_p p else cond_f P p) i) ctx
+      | Some s' => act st' s' (spos (if b then P else F) (if b then cond_p p else cond_f P p) i) ctx ie
       | None => False
       end
     | RLoop _ i st', XWhile _ B =>
       is_done st' = false /\ (ns_trans N0 = ns_trans N0) /\
       match nth_error B i with
-      | Some s' => act st' s' (spos B (loop_p p) i) ctx
+      | Some s' => act st' s' (spos B (loop_p p) i) ctx ie
       | None => False
       end
-    | RLoop _ i st', XCount _ _ B =>
+    | RLoop k i st', XCount v _ B =>
       is_done st' = false /\ (ns_trans N0 = ns_trans N0) /\
       match nth_error B i with
-      | Some s' => act st' s' (spos B (loop_p p) i) ctx
+      | Some s' => act st' s' (spos B (loop_p p) i) ctx ((v, k) :: ie)
       | None => False
       end
     | RDone, _ => True
     | _, _ => False
     end.
 
-  Fixpoint act_list (sts : list rst) (bs : list xstmt) (q : pos) (ctx : nat) : Prop :=
+  Fixpoint act_list (sts : list rst) (bs : list xstmt) (q : pos) (ctx : nat) (ie : ienv) : Prop :=
     match sts, bs with
-    | st1 :: sr, b :: br => act st1 b q ctx /\ act_list sr br (adv b q) ctx
+    | st1 :: sr, b :: br => act st1 b q ctx ie /\ act_list sr br (adv b q) ctx ie
     | [], [] => True
     | _, _ => False
     end.
-  Definition act_block (body : list xstmt) (bp : pos) (ctx : nat) (i : nat) (st : rst) : Prop :=
+  Definition act_block (body : list xstmt) (bp : pos) (ctx : nat) (i : nat) (st : rst) (ie : ienv) : Prop :=
     is_done st = false /\ (ns_trans N0 = ns_trans N0) /\
-    match nth_error body i with Some s' => act st s' (spos body bp i) ctx | None => False end.
+    match nth_error body i with Some s' => act st s' (spos body bp i) ctx ie | None => False end.
 
-  Lemma act_cond : forall (b : bool) i st e P F p ctx,
-      act (RCond b i st) (XCond e P F) p ctx
-      = act_block (if b then P else F) (if b then cond_p p else cond_f P p) ctx i st.
+  Lemma act_cond : forall (b : bool) i st e P F p ctx ie,
+      act (RCond b i st) (XCond e P F) p ctx ie
+      = act_block (if b then P else F) (if b then cond_p p else cond_f P p) ctx i st ie.
   Proof. reflexivity. Qed.
-  Lemma act_loop : forall k i st e B p ctx,
-      act (RLoop k i st) (XWhile e B) p ctx = act_block B (loop_p p) ctx i st.
+  Lemma act_loop : forall k i st e B p ctx ie,
+      act (RLoop k i st) (XWhile e B) p ctx ie = act_block B (loop_p p) ctx i st ie.
   Proof. reflexivity. Qed.
-  Lemma act_count : forall k i st v l B p ctx,
-      act (RLoop k i st) (XCount v l B) p ctx = act_block B (loop_p p) ctx i st.
+  Lemma act_count : forall k i st v l B p ctx ie,
+      act (RLoop k i st) (XCount v l B) p ctx ie = act_block B (loop_p p) ctx i st ((v, k) :: ie).
   Proof. reflexivity. Qed.
-  Lemma act_call : forall cid i st t at_ ins body p ctx,
-      act (RCall cid i st) (XCall t at_ ins body) p ctx
-      = (((exists il, nth_error (ns_apis ns) (pa p) = Some (with_uuid (ITest cid) (call_api il t at_ ins ctx (pa p)))) /\
+  Lemma act_call : forall cid i st t at_ ins body p ctx ie,
+      act (RCall cid i st) (XCall t at_ ins body) p ctx ie
+      = (((exists il, nth_error (ns_apis ns) (pa p) = Some (reid (ITest cid) (subst_params ie ins) (call_api il t at_ ins ctx (pa p)))) /\
           C0 ns cid (rch_block body (body_pos t p) i st [])) /\
-         act_block body (body_pos t p) (pa p) i st).
+         act_block body (body_pos t p) (pa p) i st []).
   Proof. reflexivity. Qed.
 
-  Lemma act_par : forall sts bs p ctx,
-      act (RPar sts) (XParallel bs) p ctx <-> all_done sts = false /\ act_list sts bs (par_pos p) ctx.
+  Lemma act_par : forall sts bs p ctx ie,
+      act (RPar sts) (XParallel bs) p ctx ie <-> all_done sts = false /\ act_list sts bs (par_pos p) ctx ie.
   Proof.
-    intros sts bs p ctx. cbn [act].
+    intros sts bs p ctx ie. cbn [act].
     assert (E : forall sts bs q,
                (fix go (sts : list rst) (bs : list xstmt) (q : pos) : Prop :=
                   match sts, bs with
-                  | st1 :: sr, b :: br => act st1 b q ctx /\ go sr br (adv b q)
+                  | st1 :: sr, b :: br => act st1 b q ctx ie /\ go sr br (adv b q)
                   | [], [] => True
                   | _, _ => False
-                  end) sts bs q <-> act_list sts bs q ctx).
+                  end) sts bs q <-> act_list sts bs q ctx ie).
     { induction sts0 as [|st1 sr IH]; intros [|b br] q; cbn [act_list]; try tauto.
       specialize (IH br (adv b q)). tauto. }
     specialize (E sts bs (par_pos p)). tauto.
@@ -738,20 +743,20 @@ Proof.
     split; [exact Hn|]. rewrite spos_cons2. exact Hl.
 Qed.
 
-Lemma act_list_nth : forall N0 ns sts bs q ctx k st b,
-    act_list N0 ns sts bs q ctx -> nth_error sts k = Some st -> nth_error bs k = Some b ->
-    act N0 ns st b (bpos bs q k) ctx.
+Lemma act_list_nth : forall N0 ns sts bs q ctx k st b {ie},
+    act_list N0 ns sts bs q ctx ie -> nth_error sts k = Some st -> nth_error bs k = Some b ->
+    act N0 ns st b (bpos bs q k) ctx ie.
 Proof.
-  intros N0 ns. induction sts as [|st1 sr IH]; intros [|b1 br] q ctx k st b Ha Hs Hb; cbn [act_list] in Ha;
+  intros N0 ns. induction sts as [|st1 sr IH]; intros [|b1 br] q ctx k st b ie Ha Hs Hb; cbn [act_list] in Ha;
     try contradiction; try (destruct k; discriminate).
   destruct Ha as [A1 A2]. destruct k as [|k]; cbn [nth_error bpos] in *.
   - inversion Hs; inversion Hb; subst. exact A1.
   - eapply IH; eassumption.
 Qed.
 
-Lemma act_list_length : forall N0 ns sts bs q ctx, act_list N0 ns sts bs q ctx -> List.length sts = List.length bs.
+Lemma act_list_length : forall N0 ns sts bs q ctx {ie}, act_list N0 ns sts bs q ctx ie -> List.length sts = List.length bs.
 Proof.
-  intros N0 ns. induction sts as [|st1 sr IH]; intros [|b br] q ctx H; cbn [act_list] in H; try contradiction; [reflexivity|].
+  intros N0 ns. induction sts as [|st1 sr IH]; intros [|b br] q ctx ie H; cbn [act_list] in H; try contradiction; [reflexivity|].
   destruct H as [_ H]. cbn. f_equal. eapply IH. exact H.
 Qed.
 
@@ -774,17 +779,17 @@ Lemma xplace_b_nth : forall l p, frag_block l = true ->
 Proof. intros l p Hf. apply last_of_spos. destruct l; [discriminate|discriminate]. Qed.
 
 
-Lemma ml_block_range_gen : forall N0 ns st' l bp ctx i q,
-    (forall s p ctx, frag s = true -> act N0 ns st' s p ctx -> forall q, In q (ml st' s p) -> in_p s p q /\ q <> xplace s p) ->
+Lemma ml_block_range_gen : forall N0 ns st' l bp ctx i q {ie},
+    (forall s p ctx ie, frag s = true -> act N0 ns st' s p ctx ie -> forall q, In q (ml st' s p) -> in_p s p q /\ q <> xplace s p) ->
     frag_block l = true ->
-    match nth_error l i with Some s' => act N0 ns st' s' (spos l bp i) ctx | None => False end ->
+    match nth_error l i with Some s' => act N0 ns st' s' (spos l bp i) ctx ie | None => False end ->
     In q (ml_block l bp i st') ->
     (pp bp <= q < pp bp + nplaces_l l) /\ q <> last_of xplace 0 l bp.
 Proof.
-  intros N0 ns st' l bp ctx i q IH Hfb Ha Hq. unfold ml_block in Hq.
+  intros N0 ns st' l bp ctx i q ie IH Hfb Ha Hq. unfold ml_block in Hq.
   destruct (nth_error l i) as [s'|] eqn:En; [|contradiction].
   pose proof (frag_block_nth _ _ _ Hfb En) as Hfs.
-  destruct (IH s' _ _ Hfs Ha q Hq) as [Hin Hx].
+  destruct (IH s' _ _ _ Hfs Ha q Hq) as [Hin Hx].
   pose proof (spos_range l bp i s' En) as R. unfold in_p in *. split; [lia|].
   destruct (last_of_spos nat xplace 0 l bp) as (sl & Hl & El); [destruct l; [discriminate|discriminate]|].
   rewrite El. destruct (Nat.eq_dec i (List.length l - 1)) as [->|Hne].
@@ -796,11 +801,11 @@ Proof.
     pose proof (xplace_range sl Hfl (spos l bp (List.length l - 1))) as X. lia.
 Qed.
 
-Lemma ml_range : forall N0 ns st s p ctx, frag s = true -> act N0 ns st s p ctx ->
+Lemma ml_range : forall N0 ns st s p ctx {ie}, frag s = true -> act N0 ns st s p ctx ie ->
     forall q, In q (ml st s p) -> in_p s p q /\ q <> xplace s p.
 Proof.
   intros N0 ns. induction st as [|id|cid i st' IH|sts IH|b i st' IH|k i st' IH|sts IH] using rst_ind';
-    intros s p ctx Hf Ha q Hq.
+    intros s p ctx ie Hf Ha q Hq.
   - destruct s; cbn in Hq; contradiction.
   - destruct s; cbn [act] in Ha; try contradiction. cbn [ml] in Hq. destruct Hq as [<-|[]].
     unfold in_p. cbn [nplaces xplace]. lia.
@@ -819,7 +824,7 @@ Proof.
     assert (Hq' : in_p b (bpos bs (par_pos p) k) q).
     { destruct st; cbn [mlx] in Hin;
         try (rewrite Forall_forall in IH;
-             apply (IH _ (nth_error_In _ _ Hs) b _ ctx Hfbk (act_list_nth _ _ _ _ _ _ _ _ _ Ha Hs Hb) q Hin)).
+             apply (IH _ (nth_error_In _ _ Hs) b _ ctx _ Hfbk (act_list_nth _ _ _ _ _ _ _ _ _ Ha Hs Hb) q Hin)).
       destruct Hin as [<-|[]]. apply (xplace_range b Hfbk). }
     unfold in_p in Hq'. lia.
   - destruct s as [| | |e P F| | | ]; cbn [act] in Ha; try contradiction.
@@ -855,14 +860,14 @@ Qed.
 (* in a stable, incomplete state nothing inside the component is enabled: every transition
    of the component reads a place of the component that is not marked *)
 (* block-level step of [stable_blocked], given the statement-level fact for the state inside *)
-Lemma stable_block_gen : forall N0 ns N st' l bp ctx ctx' xcbs i,
-    (forall s p ctx ctx' xcbs, frag s = true -> wired N s p ctx xcbs -> act N0 ns st' s p ctx' -> is_done st' = false ->
+Lemma stable_block_gen : forall N0 ns N st' l bp ctx ctx' xcbs i {ie},
+    (forall s p ctx ctx' xcbs ie, frag s = true -> wired N s p ctx xcbs -> act N0 ns st' s p ctx' ie -> is_done st' = false ->
                                forall j, in_t s p j -> exists q, In q (preN N j) /\ in_p s p q /\ ~ In q (ml st' s p)) ->
     frag_block l = true -> wired_block (wired N) N ctx xcbs l bp -> is_done st' = false ->
-    match nth_error l i with Some s' => act N0 ns st' s' (spos l bp i) ctx' | None => False end ->
+    match nth_error l i with Some s' => act N0 ns st' s' (spos l bp i) ctx' ie | None => False end ->
     forall j, in_tb l bp j -> exists q, In q (preN N j) /\ in_pb l bp q /\ ~ In q (ml_block l bp i st').
 Proof.
-  intros N0 ns N st' l bp ctx ctx' xcbs i IH Hfb Hw Hd' Ha j Hj.
+  intros N0 ns N st' l bp ctx ctx' xcbs i ie IH Hfb Hw Hd' Ha j Hj.
   destruct (nth_error l i) as [s'|] eqn:En; [|contradiction].
   pose proof (frag_block_nth _ _ _ Hfb En) as Hfs.
   assert (Hml : forall q, In q (ml_block l bp i st') -> in_p s' (spos l bp i) q /\ q <> xplace s' (spos l bp i)).
@@ -880,7 +885,7 @@ Proof.
     destruct (wired_block_nth _ _ _ _ _ _ _ _ Hw Hk) as [Wx _].
     destruct (Nat.eq_dec k i) as [->|Hki].
     + rewrite En in Hk. inversion Hk; subst x.
-      destruct (IH s' _ _ ctx' _ Hfs Wx Ha Hd' j Hin) as (q & Q1 & Q2 & Q3).
+      destruct (IH s' _ _ ctx' _ _ Hfs Wx Ha Hd' j Hin) as (q & Q1 & Q2 & Q3).
       exists q. split; [exact Q1|]. split; [eapply Hsub; eassumption|]. unfold ml_block. rewrite En. exact Q3.
     + destruct (exit_blocked N x _ _ _ Hfx Wx j Hin) as (q & Q1 & Q2 & _).
       exists q. split; [exact Q1|]. split; [eapply Hsub; eassumption|]. eapply Hdisj; eassumption.
@@ -894,12 +899,12 @@ Proof.
     + eapply Hdisj; [exact Hk|exact Hki|exact X].
 Qed.
 
-Lemma stable_blocked : forall N0 ns N st s p ctx ctx' xcbs,
-    frag s = true -> wired N s p ctx xcbs -> act N0 ns st s p ctx' -> is_done st = false ->
+Lemma stable_blocked : forall N0 ns N st s p ctx ctx' xcbs {ie},
+    frag s = true -> wired N s p ctx xcbs -> act N0 ns st s p ctx' ie -> is_done st = false ->
     forall j, in_t s p j -> exists q, In q (preN N j) /\ in_p s p q /\ ~ In q (ml st s p).
 Proof.
   intros N0 ns N. induction st as [|id|cid i st' IH|sts IH|b i st' IH|k i st' IH|sts IH] using rst_ind';
-    intros s p ctx ctx' xcbs Hf Hw Ha Hd j Hj; try discriminate Hd.
+    intros s p ctx ctx' xcbs ie Hf Hw Ha Hd j Hj; try discriminate Hd.
   - (* service *)
     destruct s; cbn [act] in Ha; try contradiction. cbn [wired] in Hw. destruct Hw as (H1 & _).
     unfold in_t in Hj. cbn [ntrans] in Hj. assert (j = pt p) by lia. subst j.
@@ -966,7 +971,7 @@ Proof.
         - destruct (exit_blocked N b _ _ _ Hfbk Wb j Hin) as (q & Q1 & Q2 & Q3).
           exists q. split; [exact Q1|]. split; [exact Q2|]. destruct st; try discriminate D. cbn [mlx]. intros [E|[]]. congruence.
         - rewrite Forall_forall in IH.
-          destruct (IH _ (nth_error_In _ _ Hs) b _ _ _ _ Hfbk Wb Hak D j Hin) as (q & Q1 & Q2 & Q3).
+          destruct (IH _ (nth_error_In _ _ Hs) b _ _ _ _ _ Hfbk Wb Hak D j Hin) as (q & Q1 & Q2 & Q3).
           exists q. split; [exact Q1|]. split; [exact Q2|]. destruct st; try discriminate D; exact Q3. }
       destruct Hq as (q & Q1 & Q2 & Q3). exists q. split; [exact Q1|]. split; [eapply Hsub; eassumption|].
       intro Hin'. destruct (in_ml_list _ _ _ _ Hin') as (k' & st' & b' & Hs' & Hb' & Hin'').
@@ -1096,18 +1101,18 @@ Proof.
   cbn [ident_eqb]. destruct (Nat.eqb_spec id i); [lia|]. eapply IH; eassumption.
 Qed.
 
-Lemma act_mono : forall N0 ns ns' st s p ctx,
-    frag s = true -> act N0 ns st s p ctx ->
+Lemma act_mono : forall N0 ns ns' st s p ctx {ie},
+    frag s = true -> act N0 ns st s p ctx ie ->
     (forall k, pa p <= k < pa p + napis s -> nth_error (ns_apis ns') k = nth_error (ns_apis ns) k) ->
     ns_sid ns <= ns_sid ns' ->
     (exists d, ns_place_dict ns' = d ++ ns_place_dict ns /\
                Forall (fun kv => exists i, fst kv = ITest i /\ ns_sid ns <= i) d) ->
     (forall k ac, pa p <= k < pa p + napis s -> nth_error (ns_apis ns) k = Some ac -> a_is_task ac = true ->
                   counters_of (a_uuid ac) ns' = counters_of (a_uuid ac) ns) ->
-    act N0 ns' st s p ctx.
+    act N0 ns' st s p ctx ie.
 Proof.
   intros N0 ns ns'. induction st as [|id|cid i st' IH|sts IH|b i st' IH|k i st' IH|sts IH] using rst_ind';
-    intros s p ctx Hf Ha Hap Hsid Hd Hcn.
+    intros s p ctx ie Hf Ha Hap Hsid Hd Hcn.
   - destruct s; exact I.
   - destruct s; cbn [act] in *; try contradiction. destruct Ha as (A1 & A2 & A3).
     split; [rewrite Hap by (cbn [napis]; lia); exact A1|]. split; [|lia].
@@ -1126,19 +1131,19 @@ Proof.
   - destruct s as [| |bs| | | | ]; cbn [act] in Ha; try (destruct Ha; contradiction).
     apply act_par in Ha. apply act_par. destruct Ha as [A1 A2]. split; [exact A1|].
     pose proof (frag_par _ Hf) as [_ Hfb]. rewrite napis_par in Hap.
-    assert (G : forall sts0 bs0 q, Forall (fun st => forall s p ctx, frag s = true -> act N0 ns st s p ctx ->
+    assert (G : forall sts0 bs0 q, Forall (fun st => forall s p ctx ie, frag s = true -> act N0 ns st s p ctx ie ->
                   (forall k, pa p <= k < pa p + napis s -> nth_error (ns_apis ns') k = nth_error (ns_apis ns) k) ->
                   ns_sid ns <= ns_sid ns' ->
                   (exists d, ns_place_dict ns' = d ++ ns_place_dict ns /\
                              Forall (fun kv => exists i, fst kv = ITest i /\ ns_sid ns <= i) d) ->
                   (forall k ac, pa p <= k < pa p + napis s -> nth_error (ns_apis ns) k = Some ac -> a_is_task ac = true ->
                                 counters_of (a_uuid ac) ns' = counters_of (a_uuid ac) ns) ->
-                  act N0 ns' st s p ctx) sts0 ->
-                frag_brs bs0 = true -> act_list N0 ns sts0 bs0 q ctx ->
+                  act N0 ns' st s p ctx ie) sts0 ->
+                frag_brs bs0 = true -> act_list N0 ns sts0 bs0 q ctx ie ->
                 (forall k, pa q <= k < pa q + napis_l bs0 -> nth_error (ns_apis ns') k = nth_error (ns_apis ns) k) ->
                 (forall k ac, pa q <= k < pa q + napis_l bs0 -> nth_error (ns_apis ns) k = Some ac -> a_is_task ac = true ->
                               counters_of (a_uuid ac) ns' = counters_of (a_uuid ac) ns) ->
-                act_list N0 ns' sts0 bs0 q ctx).
+                act_list N0 ns' sts0 bs0 q ctx ie).
     { induction sts0 as [|st1 sr IHs]; intros [|b1 br] q HF Hfb0 Hal Hap0 Hcn0; cbn [act_list] in *; try contradiction; [exact I|].
       inversion HF as [|? ? H1 H2]; subst. apply frag_brs_cons in Hfb0. destruct Hfb0 as (_ & Hf1 & Hfr).
       destruct Hal as [B1 B2]. rewrite napis_l_cons in Hap0, Hcn0. split.
@@ -1258,12 +1263,12 @@ Proof.
 Qed.
 
 (* ---- block-level versions (continued) ---- *)
-Lemma ml_range_block : forall N0 ns l bp ctx i st, frag_block l = true -> act_block N0 ns l bp ctx i st ->
+Lemma ml_range_block : forall N0 ns l bp ctx i st {ie}, frag_block l = true -> act_block N0 ns l bp ctx i st ie ->
     forall q, In q (ml_block l bp i st) ->
               in_pb l bp q /\ q <> xplace_b l bp /\
               exists s, nth_error l i = Some s /\ in_p s (spos l bp i) q.
 Proof.
-  intros N0 ns l bp ctx i st Hf (_ & _ & Ha) q Hq. unfold ml_block in Hq.
+  intros N0 ns l bp ctx i st ie Hf (_ & _ & Ha) q Hq. unfold ml_block in Hq.
   destruct (nth_error l i) as [s'|] eqn:En; [|contradiction].
   pose proof (frag_block_nth _ _ _ Hf En) as Hfs.
   destruct (ml_range N0 ns st s' _ _ Hfs Ha q Hq) as [Hin Hx].
@@ -1278,11 +1283,11 @@ Proof.
     pose proof (xplace_range sl (frag_block_nth _ _ _ Hf Hl) (spos l bp (List.length l - 1))) as X. lia.
 Qed.
 
-Lemma stable_blocked_block : forall N0 ns N l bp ctx ctx' xcbs i st,
-    frag_block l = true -> wired_block (wired N) N ctx xcbs l bp -> act_block N0 ns l bp ctx' i st ->
+Lemma stable_blocked_block : forall N0 ns N l bp ctx ctx' xcbs i st {ie},
+    frag_block l = true -> wired_block (wired N) N ctx xcbs l bp -> act_block N0 ns l bp ctx' i st ie ->
     forall j, in_tb l bp j -> exists q, In q (preN N j) /\ in_pb l bp q /\ ~ In q (ml_block l bp i st).
 Proof.
-  intros N0 ns N l bp ctx ctx' xcbs i st Hfb Hw Hab j Hj.
+  intros N0 ns N l bp ctx ctx' xcbs i st ie Hfb Hw Hab j Hj.
   pose proof Hab as (Hd' & _ & Ha). destruct (nth_error l i) as [s'|] eqn:En; [|contradiction].
   pose proof (frag_block_nth _ _ _ Hfb En) as Hfs.
   assert (Hml : forall q, In q (ml_block l bp i st) -> in_p s' (spos l bp i) q /\ q <> xplace s' (spos l bp i)).
@@ -1353,12 +1358,12 @@ Proof.
   - destruct (IH id H) as (k & st & H1 & H2). exists (S k), st. split; assumption.
 Qed.
 
-Lemma act_dict_in : forall N0 ns st s p ctx id,
-    frag s = true -> act N0 ns st s p ctx -> In id (svc_ids st) ->
+Lemma act_dict_in : forall N0 ns st s p ctx id {ie},
+    frag s = true -> act N0 ns st s p ctx ie -> In id (svc_ids st) ->
     exists fp, dict_get ident_eqb (ITest id) (ns_place_dict ns) = Some fp /\ in_p s p fp.
 Proof.
   intros N0 ns. induction st as [|id0|cid i st' IH|sts IH|b i st' IH|k i st' IH|sts IH] using rst_ind';
-    intros s p ctx id Hf Ha Hin.
+    intros s p ctx id ie Hf Ha Hin.
   - contradiction.
   - destruct s; cbn [act] in Ha; try contradiction. destruct Ha as (_ & Hd & _).
     cbn [svc_ids] in Hin. destruct Hin as [<-|[]]. exists (pp p + 1). split; [exact Hd|].
@@ -1366,7 +1371,7 @@ Proof.
   - destruct s as [| t at_ ins body | | | | | ]; cbn [act] in Ha; try contradiction.
     destruct Ha as (_ & _ & _ & Ha). destruct (nth_error body i) as [s'|] eqn:En; [|contradiction].
     pose proof (frag_call _ _ _ _ Hf) as [_ Hfb]. pose proof (frag_block_nth _ _ _ Hfb En) as Hfs.
-    cbn [svc_ids] in Hin. destruct (IH s' _ _ id Hfs Ha Hin) as (fp & Hd & Hr). exists fp. split; [exact Hd|].
+    cbn [svc_ids] in Hin. destruct (IH s' _ _ id _ Hfs Ha Hin) as (fp & Hd & Hr). exists fp. split; [exact Hd|].
     pose proof (spos_range body (body_pos t p) i s' En) as R. cbn [body_pos pp] in R.
     unfold in_p in *. rewrite nplaces_call. lia.
   - destruct s as [| |bs| | | | ]; cbn [act] in Ha; try (destruct Ha; contradiction).
@@ -1377,7 +1382,7 @@ Proof.
     2:{ apply nth_error_None in Hb. assert (k < List.length sts) by (apply nth_error_Some; congruence). lia. }
     destruct (frag_brs_nth _ _ _ Hfb Hb) as [Hfbk _].
     rewrite Forall_forall in IH.
-    destruct (IH _ (nth_error_In _ _ Hs) b _ _ id Hfbk (act_list_nth _ _ _ _ _ _ _ _ _ Ha Hs Hb) Hin') as (fp & Hd & Hr).
+    destruct (IH _ (nth_error_In _ _ Hs) b _ _ id _ Hfbk (act_list_nth _ _ _ _ _ _ _ _ _ Ha Hs Hb) Hin') as (fp & Hd & Hr).
     exists fp. split; [exact Hd|]. pose proof (bpos_range bs (par_pos p) k b Hb) as R. cbn [par_pos pp] in R.
     unfold in_p in *. rewrite nplaces_par. lia.
   - destruct s as [| | |e P F| | | ]; cbn [act] in Ha; try contradiction.
@@ -1386,19 +1391,19 @@ Proof.
     assert (Hfs : frag s' = true).
     { destruct b; [apply (frag_block_nth _ _ _ HfP En)|].
       apply (frag_block_nth F i s'); [|exact En]. apply (frag_cond_F _ _ _ Hf). intros ->. destruct i; discriminate En. }
-    cbn [svc_ids] in Hin. destruct (IH s' _ _ id Hfs Ha Hin) as (fp & Hd & Hr). exists fp. split; [exact Hd|].
+    cbn [svc_ids] in Hin. destruct (IH s' _ _ id _ Hfs Ha Hin) as (fp & Hd & Hr). exists fp. split; [exact Hd|].
     unfold in_p in *. rewrite nplaces_cond. destruct b.
     + pose proof (spos_range P (cond_p p) i s' En) as R. cbn [cond_p pp] in R. lia.
     + pose proof (spos_range F (cond_f P p) i s' En) as R. cbn [cond_f pp] in R. lia.
   - destruct s as [| | | |e B|cv cl B| ]; cbn [act] in Ha; try contradiction.
     { destruct Ha as (_ & _ & Ha). destruct (nth_error B i) as [s'|] eqn:En; [|contradiction].
       pose proof (frag_while _ _ Hf) as HfB.
-      cbn [svc_ids] in Hin. destruct (IH s' _ _ id (frag_block_nth _ _ _ HfB En) Ha Hin) as (fp & Hd & Hr).
+      cbn [svc_ids] in Hin. destruct (IH s' _ _ id _ (frag_block_nth _ _ _ HfB En) Ha Hin) as (fp & Hd & Hr).
       exists fp. split; [exact Hd|].
       unfold in_p in *. rewrite nplaces_while. pose proof (spos_range B (loop_p p) i s' En) as R. cbn [loop_p pp] in R. lia. }
     { destruct Ha as (_ & _ & Ha). destruct (nth_error B i) as [s'|] eqn:En; [|contradiction].
       pose proof (frag_count _ _ _ Hf) as HfB.
-      cbn [svc_ids] in Hin. destruct (IH s' _ _ id (frag_block_nth _ _ _ HfB En) Ha Hin) as (fp & Hd & Hr).
+      cbn [svc_ids] in Hin. destruct (IH s' _ _ id _ (frag_block_nth _ _ _ HfB En) Ha Hin) as (fp & Hd & Hr).
       exists fp. split; [exact Hd|].
       unfold in_p in *. rewrite nplaces_count. pose proof (spos_range B (loop_p p) i s' En) as R. cbn [loop_p pp] in R. lia. }
   - destruct s; cbn [act] in Ha; contradiction.
@@ -1414,21 +1419,21 @@ Proof.
   destruct st; try discriminate D1. reflexivity.
 Qed.
 
-Lemma mlx_range : forall N0 ns st b q ctx, frag b = true -> act N0 ns st b q ctx ->
+Lemma mlx_range : forall N0 ns st b q ctx {ie}, frag b = true -> act N0 ns st b q ctx ie ->
     forall x, In x (mlx st b q) -> in_p b q x.
 Proof.
-  intros N0 ns st b q ctx Hf Ha x Hx. destruct st; cbn [mlx] in Hx;
+  intros N0 ns st b q ctx ie Hf Ha x Hx. destruct st; cbn [mlx] in Hx;
     try (apply (ml_range N0 ns _ b q ctx Hf Ha x Hx)).
   destruct Hx as [<-|[]]. apply (xplace_range b Hf).
 Qed.
 
 (* the marking of a Parallel, read branch by branch *)
-Lemma cnt_ml_list_at : forall N0 ns sts bs q0 ctx k st b x,
-    frag_brs bs = true -> act_list N0 ns sts bs q0 ctx ->
+Lemma cnt_ml_list_at : forall N0 ns sts bs q0 ctx k st b x {ie},
+    frag_brs bs = true -> act_list N0 ns sts bs q0 ctx ie ->
     nth_error sts k = Some st -> nth_error bs k = Some b -> in_p b (bpos bs q0 k) x ->
     cnt (ml_list sts bs q0) x = cnt (mlx st b (bpos bs q0 k)) x.
 Proof.
-  intros N0 ns. induction sts as [|st1 sr IH]; intros [|b1 br] q0 ctx k st b x Hf Ha Hs Hb Hx;
+  intros N0 ns. induction sts as [|st1 sr IH]; intros [|b1 br] q0 ctx k st b x ie Hf Ha Hs Hb Hx;
     cbn [act_list] in Ha; try contradiction; try (destruct k; discriminate).
   destruct Ha as [A1 A2]. apply frag_brs_cons in Hf. destruct Hf as (_ & Hf1 & Hfr).
   cbn [ml_list]. rewrite cnt_app. destruct k as [|k]; cbn [nth_error bpos] in *.
@@ -1437,17 +1442,17 @@ Proof.
     apply not_in_cnt. intro Hi. destruct (in_ml_list _ _ _ _ Hi) as (k' & st' & b' & Hs' & Hb' & Hi').
     pose proof (mlx_range N0 ns st' b' _ ctx (proj1 (frag_brs_nth _ _ _ Hfr Hb')) (act_list_nth _ _ _ _ _ _ _ _ _ A2 Hs' Hb') x Hi') as R.
     pose proof (bpos_range br (adv b q0) k' b' Hb') as R'. unfold in_p in *. cbn [adv pp] in R'. lia.
-  - rewrite (IH br (adv b1 q0) ctx k st b x Hfr A2 Hs Hb Hx).
+  - rewrite (IH br (adv b1 q0) ctx k st b x _ Hfr A2 Hs Hb Hx).
     assert (cnt (mlx st1 b1 q0) x = 0); [|lia].
     apply not_in_cnt. intro Hi. pose proof (mlx_range N0 ns st1 b1 q0 ctx Hf1 A1 x Hi) as R.
     pose proof (bpos_range br (adv b1 q0) k b Hb) as R'. unfold in_p in *. cbn [adv pp] in R'. lia.
 Qed.
 
-Lemma ml_list_range : forall N0 ns sts bs q0 ctx x,
-    frag_brs bs = true -> act_list N0 ns sts bs q0 ctx -> In x (ml_list sts bs q0) ->
+Lemma ml_list_range : forall N0 ns sts bs q0 ctx x {ie},
+    frag_brs bs = true -> act_list N0 ns sts bs q0 ctx ie -> In x (ml_list sts bs q0) ->
     pp q0 <= x < pp q0 + nplaces_l bs.
 Proof.
-  intros N0 ns sts bs q0 ctx x Hf Ha Hi. destruct (in_ml_list _ _ _ _ Hi) as (k & st & b & Hs & Hb & Hi').
+  intros N0 ns sts bs q0 ctx x ie Hf Ha Hi. destruct (in_ml_list _ _ _ _ Hi) as (k & st & b & Hs & Hb & Hi').
   pose proof (mlx_range N0 ns st b _ ctx (proj1 (frag_brs_nth _ _ _ Hf Hb)) (act_list_nth _ _ _ _ _ _ _ _ _ Ha Hs Hb) x Hi') as R.
   pose proof (bpos_range bs q0 k b Hb) as R'. unfold in_p in *. lia.
 Qed.
@@ -1460,9 +1465,9 @@ Lemma update_nth_length : forall A (l : list A) k x, List.length (update_nth k x
 Proof. induction l as [|a l IH]; intros [|k] x; cbn; auto. Qed.
 
 (* replacing the state of one branch *)
-Lemma act_list_update : forall N0 ns ns' sts bs q0 ctx k st' b,
-    frag_brs bs = true -> act_list N0 ns sts bs q0 ctx -> nth_error bs k = Some b ->
-    act N0 ns' st' b (bpos bs q0 k) ctx ->
+Lemma act_list_update : forall N0 ns ns' sts bs q0 ctx k st' b {ie},
+    frag_brs bs = true -> act_list N0 ns sts bs q0 ctx ie -> nth_error bs k = Some b ->
+    act N0 ns' st' b (bpos bs q0 k) ctx ie ->
     (forall a, ~ (pa (bpos bs q0 k) <= a < pa (bpos bs q0 k) + napis b) -> nth_error (ns_apis ns') a = nth_error (ns_apis ns) a) ->
     ns_sid ns <= ns_sid ns' ->
     (exists d, ns_place_dict ns' = d ++ ns_place_dict ns /\
@@ -1470,15 +1475,15 @@ Lemma act_list_update : forall N0 ns ns' sts bs q0 ctx k st' b,
     (forall a ac, ~ (pa (bpos bs q0 k) <= a < pa (bpos bs q0 k) + napis b) -> pa q0 <= a ->
                   nth_error (ns_apis ns) a = Some ac -> a_is_task ac = true ->
                   counters_of (a_uuid ac) ns' = counters_of (a_uuid ac) ns) ->
-    act_list N0 ns' (update_nth k st' sts) bs q0 ctx.
+    act_list N0 ns' (update_nth k st' sts) bs q0 ctx ie.
 Proof.
-  intros N0 ns ns'. induction sts as [|st1 sr IH]; intros [|b1 br] q0 ctx k st' b Hf Ha Hb Hact Hap Hsid Hd Hcn;
+  intros N0 ns ns'. induction sts as [|st1 sr IH]; intros [|b1 br] q0 ctx k st' b ie Hf Ha Hb Hact Hap Hsid Hd Hcn;
     cbn [act_list] in Ha; try contradiction; try (destruct k; discriminate).
   destruct Ha as [A1 A2]. apply frag_brs_cons in Hf. destruct Hf as (_ & Hf1 & Hfr).
   destruct k as [|k]; cbn [nth_error bpos update_nth] in *.
   - inversion Hb; subst b1. cbn [act_list]. split; [exact Hact|].
     clear IH.
-    assert (G : forall sr br q1, pa q0 + napis b <= pa q1 -> frag_brs br = true -> act_list N0 ns sr br q1 ctx -> act_list N0 ns' sr br q1 ctx).
+    assert (G : forall sr br q1, pa q0 + napis b <= pa q1 -> frag_brs br = true -> act_list N0 ns sr br q1 ctx ie -> act_list N0 ns' sr br q1 ctx ie).
     { induction sr0 as [|s2 sr2 IH2]; intros [|b2 br2] q2 Hq Hf2 Ha2; cbn [act_list] in *; try contradiction; [exact I|].
       destruct Ha2 as [B1 B2]. apply frag_brs_cons in Hf2. destruct Hf2 as (_ & Hfb2 & Hfr2). split.
       - apply (act_mono N0 ns ns' s2 b2 q2 ctx Hfb2 B1); [|exact Hsid|exact Hd|]; [intros a Ha; apply Hap; lia|].
@@ -1713,18 +1718,19 @@ Proof. intros st b q H. destruct st; try reflexivity. discriminate H. Qed.
 Lemma in_ids_nd : forall st id, In id (svc_ids st) -> is_done st = false.
 Proof. intros st id H. destruct st; try reflexivity. contradiction. Qed.
 
-(* which parameters may mention loop indices ([NC] = the program has no counting loop: then any;
-   otherwise none).  [rt] is not used any more (it once confined counting loops to the
-   production task) *)
+(* [NC] = "the program has no counting loop" must be false wherever a counting loop stands (the
+   counters store stays empty in programs without counting loops); nothing else is required:
+   [rt] is not used any more (it once confined counting loops to the production task), and
+   parameters may mention loop indices *)
 Fixpoint sok (NC rt : bool) (s : xstmt) : bool :=
   match s with
-  | XService _ _ ins => NC || idxfree ins
-  | XCall _ _ ins body => (NC || idxfree ins) && forallb (sok NC rt) body
+  | XService _ _ ins => true
+  | XCall _ _ ins body => true && forallb (sok NC rt) body
   | XParallel bs => forallb (sok NC rt) bs
   | XCond _ P F => forallb (sok NC rt) P && forallb (sok NC rt) F
   | XWhile _ B => forallb (sok NC rt) B
   | XCount _ _ B => negb NC && forallb (sok NC rt) B
-  | XParLoop _ _ _ => false
+  | XParLoop _ _ _ => true
   end.
 Definition sok_block (NC rt : bool) (l : list xstmt) : bool := forallb (sok NC rt) l.
 
@@ -1750,6 +1756,14 @@ Proof.
     destruct (psi_first_pos (s :: r) p) as [F1 F2]. cbn [adv psi si_next s_pre s_tn]. split; assumption.
 Qed.
 
+Lemma psi_spos_il : forall l p i, s_il (psi (spos l p i)) = s_il (psi p).
+Proof.
+  induction l as [|s r IH]; intros p i; [destruct i; reflexivity|].
+  destruct i as [|i]; cbn [spos].
+  - unfold first_pos. destruct r; reflexivity.
+  - rewrite IH. unfold first_pos. destruct r; reflexivity.
+Qed.
+
 Lemma klb_spos : forall kl l p i, klb kl p -> klb kl (spos l p i).
 Proof. intros kl l p i H key k Hin. rewrite (proj1 (psi_spos l p i)). apply (H key k Hin). Qed.
 
@@ -1759,8 +1773,8 @@ Proof. intros kl p q Hle H key k Hin. specialize (H key k Hin). lia. Qed.
 Lemma klb_push : forall kl p k, klb kl p -> klb ((pkey p, k) :: kl) (loop_p p).
 Proof.
   intros kl p k H key k0 [E|Hin].
-  - inversion E; subst. unfold pkey, loop_p, si_sub, s_path. cbn [st_path psi s_pre]. rewrite app_length. cbn. lia.
-  - specialize (H key k0 Hin). unfold loop_p, si_sub, s_path. cbn [psi s_pre]. rewrite app_length. cbn. lia.
+  - inversion E; subst. unfold pkey, loop_p, si_loop, s_path. cbn [st_path psi s_pre]. rewrite app_length. cbn. lia.
+  - specialize (H key k0 Hin). unfold loop_p, si_loop, s_path. cbn [psi s_pre]. rewrite app_length. cbn. lia.
 Qed.
 
 Lemma klb_fresh : forall kl p, klb kl p -> forall k, ~ In (pkey p, k) kl.
@@ -1768,3 +1782,5 @@ Proof.
   intros kl p H k Hin. specialize (H _ _ Hin). unfold pkey, s_path in H. cbn [st_path] in H.
   rewrite app_length in H. cbn in H. lia.
 Qed.
+
+End WithLV.
